@@ -4,29 +4,44 @@
 (*                                                                               *)
 (* The numerical linear algebra (Jacobian, trust-region step, norms) is the      *)
 (* ENVIRONMENT: in every iteration it hands the loop one abstract outcome        *)
-(*    r_n = 0 ?      sign class of pred_red      cost of the candidate xp        *)
+(*    r_n = 0 ?   sign classes of pred_red and actu_red   cost of the candidate  *)
 (*    rho (an extended real: NaN, -inf, +inf or a rational)                      *)
 (*    outcome of the two convergence tests                                       *)
 (* and the model executes the control flow of the code on it:                    *)
-(*    strategy update (radius / reduce factor that PERSIST in the strategy       *)
-(*    object, which may be shared by consecutive runs), acceptance rule          *)
-(*    r_n == 0 || pred_red <= 0 || take_step, callback, status selection         *)
-(*    (Ftol test first, then Ptol), loop bound iter < max_iter && !status.       *)
+(*    reset() of the strategy object on entry (a re-used object arrives with     *)
+(*    whatever radius / reduce factor the previous run left in it),              *)
+(*    strategy update, acceptance rule                                           *)
+(*       r_n == 0 || (actu_red >= 0 && (pred_red <= 0 || take_step)),            *)
+(*    callback, status selection (Ftol test first, then Ptol), loop bound        *)
+(*    iter < max_iter && !status.                                                *)
 (*                                                                               *)
-(* Environment assumptions (facts about the linear algebra, NOT about the loop;  *)
-(* the trace specification TraceOptim validates them on every real iteration):   *)
-(*    A1  pred_red <= 0  =>  the step is null up to rounding (cost unchanged)     *)
-(*    A2  rho = actu_red / pred_red in IEEE arithmetic, and actu_red > 0 exactly *)
-(*        when the candidate has smaller cost than the current iterate           *)
-(*    A3  r_n = 0  =>  dx = 0 (cost unchanged)                                   *)
+(* Environment assumptions (facts about the arithmetic, NOT about the loop; the  *)
+(* trace specification TraceOptim validates them on every real iteration):       *)
+(*    A2  actu_red = 1 - (|f(xp)|/r_n)^2 has the sign of the cost comparison:    *)
+(*        actu_red > 0 if the candidate is better, < 0 if it is worse (either    *)
+(*        sign when the costs agree up to rounding)             -- Monotone      *)
+(*    A3  r_n = 0  =>  dx = 0 (cost unchanged)                  -- Monotone      *)
+(*    TieRho (optional, no property needs it): rho = actu_red / pred_red in IEEE *)
+(*        arithmetic.  With TieRho = FALSE rho is arbitrary: every property      *)
+(*        below holds for the larger environment too.                            *)
+(* (Before the repair f247895 the rule was r_n == 0 || pred_red <= 0 ||          *)
+(*  take_step and Monotone additionally needed A1: pred_red <= 0 => null step,   *)
+(*  which is false for badly scaled problems; that rule is kept as the model     *)
+(*  mutant "accept_pred_red_only".)                                              *)
 (*                                                                               *)
 (* Checked by TLC for every behaviour within the constants (see Minimize.cfg):   *)
 (*    Bound, StatusContract, Callbacks (count = 1 + #accepted, last callback     *)
-(*    iterate = arguments), Monotone, StratInv, Persist, Termination.            *)
+(*    iterate = arguments), Monotone, StratInv, ReduceRestart, FreshAtStart      *)
+(*    (every run starts from the initial strategy state, also on a re-used       *)
+(*    object), Carried, NotStuck + Decreases, Termination.                       *)
 (* Variant /= "coded" selects a seeded mutant of the MODEL (non-vacuity).        *)
 (*                                                                               *)
-(* The operators StratInit, StratStep, Accept, StatusOf, LoopContinues are       *)
-(* reused by TraceOptim with the logged fields bound to their arguments.         *)
+(* Termination rests on the loop bound alone: an iteration with pred_red < 0,    *)
+(* actu_red < 0 (hence rho > 0) is REJECTED while the strategy GROWS the radius, *)
+(* so neither the cost nor the radius is a variant; Rank counts iterations.      *)
+(*                                                                               *)
+(* The operators StratInit, StratStep, StratReset, Accept, StatusOf,             *)
+(* LoopContinues are reused by TraceOptim with the logged fields bound.          *)
 EXTENDS MinimizeOps
 
 CONSTANTS
@@ -34,9 +49,10 @@ CONSTANTS
   Runs,         \* number of consecutive runs (>= 2 shows persistence of the strategy object)
   Levels,       \* cost levels 0..Levels (level 0: zero residual); equal level = equal up to rounding
   Kinds,        \* subset of {"ceres", "disney"}
-  \* (Variant, declared in MinimizeOps: "coded" or a model mutant: "accept_always", "rho_gt_minus1",
-  \*  "assign_before_test", "loop_le", "status_default_ptol", "reduce_not_reset")
-  AssumeA1, AssumeA2, AssumeA3   \* BOOLEAN: environment assumptions in force
+  \* (Variant, declared in MinimizeOps: "coded" or a model mutant: "accept_always", "accept_pred_red_only",
+  \*  "no_reset", "assign_before_test", "loop_le", "status_default_ptol", "reduce_not_reset")
+  AssumeA2, AssumeA3,   \* BOOLEAN: environment assumptions in force
+  TieRho                \* BOOLEAN: rho = actu_red / pred_red (FALSE: rho arbitrary)
 
 ---------------------------------------------------------------------------
 \* The state machine below keeps the strategy state in INTEGER EXPONENTS so that TLC explores it quickly:
@@ -65,8 +81,6 @@ CeresRegime(rho) ==
   ELSE IF REq(CeresDen(rho), R1) THEN "one"
   ELSE IF REq(CeresDen(rho), RFrac(9, 8)) THEN "nine8"
   ELSE IF REq(CeresDen(rho), GenDen) THEN "generic"
-  ELSE IF REq(CeresDen(rho), R2) THEN "two"           \* only reachable by the model mutant rho > -1 (rho = 0)
-  ELSE IF REq(CeresDen(rho), RFromInt(9)) THEN "nine" \* model mutant only (rho = -1/2)
   ELSE "unknown"
 
 AbsStepRegime(a, reg, taken) ==
@@ -77,30 +91,33 @@ AbsStepRegime(a, reg, taken) ==
          [] reg = "one"     -> [take |-> TRUE, s |-> [a EXCEPT !.k = kk]]
          [] reg = "nine8"   -> [take |-> TRUE, s |-> [a EXCEPT !.e3 = @ - 2, !.e2 = @ - 3, !.k = kk]]
          [] reg = "generic" -> [take |-> TRUE, s |-> [a EXCEPT !.eg = @ + 1, !.k = kk]]
-         [] reg = "two"     -> [take |-> TRUE, s |-> [a EXCEPT !.e2 = @ + 1, !.k = kk]]
-         [] reg = "nine"    -> [take |-> TRUE, s |-> [a EXCEPT !.e3 = @ - 2, !.k = kk]]
   ELSE IF taken THEN [take |-> TRUE, s |-> [a EXCEPT !.e2 = 0]]
        ELSE [take |-> FALSE, s |-> [a EXCEPT !.e2 = @ + 1]]
+\* reset() on entry of minimize
+AbsReset(a) == IF Variant = "no_reset" THEN a ELSE AbsInit(a.kind)
+\* states in which a strategy object that was used before may arrive (collapsed / grown radius), besides the initial one
+Arrivals(kind) ==
+  {AbsInit(kind)} \cup
+  (IF kind = "ceres" THEN {[AbsInit(kind) EXCEPT !.e2 = 45, !.k = 10], [AbsInit(kind) EXCEPT !.e3 = 6]}
+   ELSE {[AbsInit(kind) EXCEPT !.e2 = 9]})
 AbsStep(a, rho) == AbsStepRegime(a, CeresRegime(rho), XGt(rho, RhoThreshold("disney")))
 ---------------------------------------------------------------------------
 \* abstract environment
 PredClasses == {"neg", "zero", "pos", "nan"}
 \* representatives of rho: below / at / above the Ceres threshold, the three Ceres divisor regimes
 \* (9/8 at 1/4, 1 at 1/2, clamp 1/3 at 1 and beyond), beyond the Ftol limit 2, negative, zero
-\* (the model mutant rho > -1 would take the two sub-threshold representatives with divisors outside the
-\*  exponent abstraction; it is explored without them)
-SubThreshold == IF Variant = "rho_gt_minus1" THEN {} ELSE {XFin(RFrac(1, 2000)), XFin(C1em3)}
-PosReps == SubThreshold \cup {RhoGeneric, XFin(RFrac(1, 4)), XFin(RHalf), XFin(R1), XFin(RFromInt(3))}
+PosReps == {XFin(RFrac(1, 2000)), XFin(C1em3), RhoGeneric, XFin(RFrac(1, 4)), XFin(RHalf), XFin(R1), XFin(RFromInt(3))}
 NegReps == {XFin(RFromInt(-2)), XFin(RFrac(-1, 2))}
 AllReps == PosReps \cup NegReps \cup {XFin(R0), XNaN, XPInf, XNInf}
 
-\* sign class of actu_red = 1 - (cost(xp)/r_n)^2 given the cost levels (r_n /= 0):
+\* A2: sign class of actu_red = 1 - (cost(xp)/r_n)^2 given the cost levels (r_n /= 0):
 \* strictly smaller level -> positive, strictly larger -> negative, same level -> anything finite (rounding)
 ActuClasses(c, cp) ==
   IF c = 0 THEN (IF cp = 0 THEN {"nan"} ELSE {"ninf"})         \* 1 - (x/0)^2
+  ELSE IF ~AssumeA2 THEN {"neg", "zero", "pos"}
   ELSE IF cp < c THEN {"pos"} ELSE IF cp > c THEN {"neg"} ELSE {"neg", "zero", "pos"}
 
-\* A2: rho = actu_red / pred_red in IEEE arithmetic, abstracted to the representatives
+\* TieRho: rho = actu_red / pred_red in IEEE arithmetic, abstracted to the representatives
 RhoGiven(actu, pred) ==
   IF actu = "nan" \/ pred = "nan" THEN {XNaN}
   ELSE IF pred = "zero" THEN
@@ -113,9 +130,8 @@ Outcomes(c) ==
   { o \in [cp : 0..Levels, pred : PredClasses, actu : {"neg", "zero", "pos", "nan", "ninf"},
            rho : AllReps, ftest : BOOLEAN, ptest : BOOLEAN] :
       /\ o.actu \in ActuClasses(c, o.cp)
-      /\ (AssumeA1 /\ o.pred \in {"neg", "zero"}) => o.cp = c
       /\ (AssumeA3 /\ c = 0) => o.cp = c
-      /\ AssumeA2 => o.rho \in RhoGiven(o.actu, o.pred)
+      /\ TieRho => o.rho \in RhoGiven(o.actu, o.pred)
       \* the Ftol test needs finite operands and rho <= 2
       /\ o.ftest => (o.actu \in {"neg", "zero", "pos"} /\ o.pred /= "nan" /\ XLe(o.rho, R2)) }
 \* constant table (TLC evaluates a zero-arity constant definition once)
@@ -134,6 +150,7 @@ StepCommutes ==
   /\ \A a \in AbsBox : \A r \in AllReps :
         LET u == AbsStep(a, r)  v == StratStep(Conc(a), r)
         IN u.take = v.take /\ SameStrat(Conc(u.s), v.s)
+  /\ \A a \in AbsBox : SameStrat(Conc(AbsReset(a)), StratReset(Conc(a)))
 ASSUME StepCommutes
 
 ---------------------------------------------------------------------------
@@ -153,22 +170,23 @@ vars == <<run, pc, iter, status, strat, fresh, x, cost, ncb, cbX, cbCost, mono, 
 
 Init ==
   /\ run = 1 /\ pc = "start" /\ iter = 0 /\ status = "none"
-  /\ \E k \in Kinds : strat = AbsInit(k) /\ exitStrat = AbsInit(k)
-  /\ fresh = TRUE
+  \* the first run already may get a strategy object that some earlier solve left in a non-initial state
+  /\ \E k \in Kinds : \E s0 \in Arrivals(k) : strat = s0 /\ exitStrat = s0 /\ fresh = (s0 = AbsInit(k))
   /\ x = 0 /\ cost \in 0..Levels
   /\ ncb = 0 /\ cbX = -1 /\ cbCost = 0 /\ mono = TRUE /\ nacc = 0 /\ fired = FALSE /\ result = "-"
 
-\* std::apply(cb, x) on the initial value
+\* opts.strat->reset(); std::apply(cb, x) on the initial value
 Start ==
   /\ pc = "start"
+  /\ strat' = AbsReset(strat)
   /\ pc' = "loop" /\ ncb' = 1 /\ cbX' = x /\ cbCost' = cost
-  /\ UNCHANGED <<run, iter, status, strat, fresh, x, cost, mono, nacc, fired, result, exitStrat>>
+  /\ UNCHANGED <<run, iter, status, fresh, x, cost, mono, nacc, fired, result, exitStrat>>
 
 \* one pass through the loop body
 \* (upd is passed as an argument so that TLC evaluates the strategy update once per rho)
 IterateWith(upd, os) ==
   \E o \in os :
-       LET acc == Accept(cost = 0, o.pred \in {"neg", "zero"}, upd.take)
+       LET acc == Accept(cost = 0, o.actu \in {"zero", "pos"}, o.pred \in {"neg", "zero"}, upd.take)
            st2 == StatusOf(acc, o.ftest, o.ptest)
        IN /\ strat' = upd.s
           /\ IF acc
@@ -227,7 +245,7 @@ StatusContract ==
 Callbacks ==
   /\ pc /= "start" => (ncb = 1 + nacc /\ cbX = x /\ cbCost = cost)
 
-\* C09.monotone: callback costs never increase (holds under A1-A3 only)
+\* C09.monotone: callback costs never increase (needs A2 and A3, nothing else)
 Monotone == mono
 
 \* C09.strategy: radius positive, reduce factor a power of two >= 2, reset to 2 by every successful Ceres step
@@ -239,10 +257,14 @@ StratInv ==
 ReduceRestart ==
   [][(strat.kind = "ceres" /\ pc = "loop" /\ pc' = "loop" /\ strat' /= strat)
        => ((strat'.k = strat.k + 1 /\ strat'.e2 = strat.e2 + strat.k) \/ strat'.k = 1)]_vars
-Persist ==
-  (pc \in {"start", "loop"} /\ iter = 0 /\ run > 1 /\ ~fresh) => strat = exitStrat
+\* a re-used object enters minimize with the state the previous run left in it, a new one with the initial state ...
+Carried ==
+  (pc = "start" /\ run > 1 /\ ~fresh) => strat = exitStrat
 FreshInit ==
-  (pc \in {"start", "loop"} /\ iter = 0 /\ fresh) => strat = AbsInit(strat.kind)
+  (pc = "start" /\ fresh) => strat = AbsInit(strat.kind)
+\* ... and every run starts iterating from the initial strategy state (reset on entry), whatever arrived
+FreshAtStart ==
+  (pc = "loop" /\ iter = 0) => strat = AbsInit(strat.kind)
 
 \* Reachability witnesses: each of these "invariants" must be VIOLATED (the driver checks that TLC finds a
 \* behaviour reaching the situation), so that no property above holds vacuously.
@@ -251,7 +273,11 @@ NeverPtol == result /= "Ptol"
 NeverMaxIters == result /= "MaxIters"
 NeverRejected == ~(pc = "loop" /\ nacc < iter)
 NeverAcceptedAtZeroResidual == ~(pc = "loop" /\ cost = 0 /\ nacc > 0)
-NeverSecondRunOnSharedStrategy == ~(run = 2 /\ ~fresh /\ iter > 0 /\ strat /= AbsInit(strat.kind))
+NeverDirtyArrival == ~(pc = "start" /\ run = 2 /\ ~fresh /\ strat /= AbsInit(strat.kind))
+\* an iteration that is rejected although the strategy grows the radius (pred_red < 0, actu_red < 0, rho > 0):
+\* neither cost nor radius is a variant of the loop - only the iteration count is
+NeverRejectedWhileRadiusGrows ==
+  [][~(pc = "loop" /\ iter' = iter + 1 /\ nacc' = nacc /\ strat.kind = "ceres" /\ strat'.e3 > strat.e3)]_vars
 
 \* every run returns.  Termination is the temporal statement (checked with the liveness checker on the small
 \* configuration Minimize_live.cfg); Decreases + NotStuck is its safety-style proof by a ranking function, cheap
